@@ -234,7 +234,7 @@ DT_SPELL = DT_SPELL + NAN_CASES
 ONOFF_SPELL = ONOFF_SPELL + BOOL_CASES
 NATIVE = [None, 0, 1, 2, -3, 1.5, 0.0, -0.0, 1.0, float("nan"), float("inf"), True, False,
           datetime.datetime(2020, 1, 2), datetime.datetime(2020, 1, 2, 3, 4, 5, 6), datetime.date(2020, 1, 2),
-          datetime.time(1, 2), 10 ** 20]
+          datetime.time(1, 2), 10 ** 20, 1 / 3, 0.1 + 0.2, 960.3363318270713]
 
 
 def rand_text(rng, alpha=TEXT_ALPHA, lo=0, hi=6):
